@@ -207,6 +207,7 @@ def networks(cls, g, shapes, rng, frozen):
                 H.add_edge((mm[: (len(mm) + 1) // 2], mm[(len(mm) + 1) // 2:] or mm[:1]))
         if rng.random() < 0.6:  # also networks without any network attribute
             H["wt"] = [7]
+            H["name"] = "input network"
         if rng.random() < 0.5:  # a removal history: the id counter is ahead of the ids in use
             try:
                 if cls == "SC":
